@@ -126,6 +126,33 @@ func (db *DB) DeleteChannels(chs []ChannelKey) (err error) {
 		err = errors.Combine(err, errRemove)
 	}()
 
+	// Validate up front that no index channel in chs still indexes a channel outside of
+	// chs, so that the common failure leaves the database untouched instead of
+	// half-deleted.
+	toDelete := make(map[ChannelKey]struct{}, len(chs))
+	for _, ch := range chs {
+		toDelete[ch] = struct{}{}
+	}
+	for _, ch := range chs {
+		udb, uok := db.mu.dbs.unary[ch]
+		if !uok || !udb.Channel().IsIndex {
+			continue
+		}
+		for otherKey, otherDB := range db.mu.dbs.unary {
+			if _, deleting := toDelete[otherKey]; deleting || otherKey == ch {
+				continue
+			}
+			if otherDB.Channel().Index == ch {
+				err = errors.Newf(
+					"cannot delete channel %v because it indexes data in channel %v",
+					udb.Channel(),
+					otherDB.Channel(),
+				)
+				return
+			}
+		}
+	}
+
 	// Do a pass first to remove all non-index channels
 	for _, ch := range chs {
 		udb, uok := db.mu.dbs.unary[ch]
